@@ -228,3 +228,34 @@ pub fn structural_faults(buf: &[u8], emit: &mut dyn FnMut(&'static str, Vec<u8>)
         }
     }
 }
+
+/// Heavier single faults, applied to shallow skeletons only: every value of every type / length
+/// byte of the header and of each attribute header; every single-bit flip of the whole buffer.
+pub fn heavy_faults(buf: &[u8], emit: &mut dyn FnMut(&'static str, Vec<u8>)) {
+    let offs = attr_offsets(buf);
+    // every byte of the header's type/length fields and of every attribute header takes every value
+    // (retyping into / out of MI, MI256, FINGERPRINT, length confusions)
+    let mut hdr_pos: Vec<usize> = vec![0, 1, 2, 3];
+    for &o in &offs {
+        hdr_pos.extend([o, o + 1, o + 2, o + 3]);
+    }
+    for p in hdr_pos {
+        if p < buf.len() {
+            for v in 0..=255u8 {
+                if v != buf[p] {
+                    let mut b = buf.to_vec();
+                    b[p] = v;
+                    emit("hdr-bytesub", b);
+                }
+            }
+        }
+    }
+    // every single-bit flip of short buffers (the whole buffer)
+    if buf.len() <= 64 {
+        for bit in 0..buf.len() * 8 {
+            let mut b = buf.to_vec();
+            b[bit / 8] ^= 0x80 >> (bit % 8);
+            emit("bitflip", b);
+        }
+    }
+}
